@@ -29,8 +29,10 @@ EXTENDS Integers, Sequences, TraceLib
 
 RECURSIVE SeqsOver(_, _)
 SeqsOver(S, k) == IF k = 0 THEN {<<>>} ELSE {Append(s, x) : s \in SeqsOver(S, k - 1), x \in S}
-CapSeqs == UNION {SeqsOver({"ref", "mut"}, k) : k \in 0 .. 4}
-Shapes == [caps : CapSeqs, nargs : 1 .. 4, ret : BOOLEAN, comma : BOOLEAN]
+\* 4 and 4 in the quick tier (the property's quantifier: 496 shapes); the thorough tier goes beyond it
+CONSTANTS MaxCaps, MaxArgs
+CapSeqs == UNION {SeqsOver({"ref", "mut"}, k) : k \in 0 .. MaxCaps}
+Shapes == [caps : CapSeqs, nargs : 1 .. MaxArgs, ret : BOOLEAN, comma : BOOLEAN]
 
 RECURSIVE SharedSumRec(_, _, _)
 SharedSumRec(sh, caps, i) == IF i > Len(caps) THEN 0 ELSE (IF sh.caps[i] = "ref" THEN caps[i] ELSE 0) + SharedSumRec(sh, caps, i + 1)
